@@ -2,7 +2,8 @@ import Rawr.Model.Search
 import Rawr.Proofs.Hashtable
 import Rawr.Proofs.SearchHist
 import Rawr.Proofs.SelSort
-/-! Helper lemmas for C11 (children drawn by rule) — also used by C12:
+/-! Helper lemmas for C11 (children drawn by rule) — also used by C12. Everything here lives in the namespace
+`Rawr.DM` (other helper files prove similarly named range lemmas in `Rawr`).
 
 * `repCount` as an index condition on the history;
 * a non-root call on a position drawn by rule, with no table hit and a quiet limit, as an equation
@@ -11,7 +12,7 @@ import Rawr.Proofs.SelSort
   principle for `nmLoop` (`nmLoop_invariant`);
 * what a returning root call has done (`root_call_unfold`);
 * quiescence values lie within the bounds of the static evaluation (`qsearch_range`). -/
-namespace Rawr
+namespace Rawr.DM
 
 /-! ## the repetition test -/
 
@@ -68,10 +69,13 @@ theorem repCount_cons_ge_two (k : BB) (h : List BB) (hm : Int) :
 
 /-! ## a child drawn by rule -/
 
+/-- the stop poll does not look at `seldepth`. -/
 theorem shouldStop_fst_seldepth (lim : Limit) (s : SState) (x : Int) :
     (shouldStop lim { s with seldepth := x }).1 = (shouldStop lim s).1 := by
   cases lim <;> rfl
 
+/-- a non-root call on a position drawn by rule (no table hit, poll answers `false`): quiescence if the remaining
+depth after the check extension is ≤ 0 (the rule draws are only looked at afterwards), else `DRAW_SCORE`. -/
 theorem negamax_drawn_child_eq (lim : Limit) (fuel : Nat) (c : Position) (st : SState)
     (α β ply depth : Int) (cn : Bool)
     (hply : 1 ≤ ply)
@@ -102,7 +106,7 @@ theorem negamax_drawn_child_eq (lim : Limit) (fuel : Nat) (c : Position) (st : S
     simp only [Bool.false_eq_true, ↓reduceIte, shouldStop_snd]
     exact if_pos hd
 /-- frame -/
-def SState.FrameAt (H : List BB) (T : Table TTEntry) (D : Int) (B : Option Mv) (s : SState) : Prop :=
+def FrameAt (H : List BB) (T : Table TTEntry) (D : Int) (B : Option Mv) (s : SState) : Prop :=
   s.hist = H ∧ s.tt = T ∧ s.depth = D ∧ s.best = B
 
 theorem lmr_depth_ge_one (depth : Int) (b : Bool) (hd : 2 ≤ depth) (hb : b = false → 3 ≤ depth) :
@@ -116,11 +120,11 @@ theorem nmLoop_const_tail (rec : Position → SState → Int → Int → Int →
     (p : Position) (beta ply depth : Int) (inCheck : Bool) (v : Int) (H : List BB) (T : Table TTEntry)
     (D : Int) (B : Option Mv) (hdepth : 2 ≤ depth) (hvb : v < beta) (ms : List Mv)
     (hrec : ∀ m ∈ ms, ∃ c, p.makemove m true = some c ∧
-      ∀ s a b d cn, 1 ≤ d → SState.FrameAt (c.hash :: H) T D B s →
-        ∃ s', rec c s a b (ply + 1) d cn = some (-v, s') ∧ SState.FrameAt (c.hash :: H) T D B s') :
-    ∀ (idx : Nat) (st : SState) (bm : Option Mv), 1 ≤ idx → SState.FrameAt H T D B st →
+      ∀ s a b d cn, 1 ≤ d → FrameAt (c.hash :: H) T D B s →
+        ∃ s', rec c s a b (ply + 1) d cn = some (-v, s') ∧ FrameAt (c.hash :: H) T D B s') :
+    ∀ (idx : Nat) (st : SState) (bm : Option Mv), 1 ≤ idx → FrameAt H T D B st →
       ∃ st', nmLoop rec p beta ply depth inCheck ms idx st v v bm = some (st', v, v, bm) ∧
-        SState.FrameAt H T D B st' := by
+        FrameAt H T D B st' := by
   induction ms with
   | nil => intro idx st bm _ hst; exact ⟨st, rfl, hst⟩
   | cons m ms ih =>
@@ -149,11 +153,11 @@ theorem nmLoop_const (rec : Position → SState → Int → Int → Int → Int 
     (p : Position) (beta ply depth : Int) (inCheck : Bool) (v : Int) (H : List BB) (T : Table TTEntry)
     (D : Int) (B : Option Mv) (hdepth : 2 ≤ depth) (hvb : v < beta) (m : Mv) (ms : List Mv)
     (hrec : ∀ m' ∈ m :: ms, ∃ c, p.makemove m' true = some c ∧
-      ∀ s a b d cn, 1 ≤ d → SState.FrameAt (c.hash :: H) T D B s →
-        ∃ s', rec c s a b (ply + 1) d cn = some (-v, s') ∧ SState.FrameAt (c.hash :: H) T D B s')
-    (st : SState) (alpha best : Int) (ha : alpha < v) (hbest : best < v) (hst : SState.FrameAt H T D B st) :
+      ∀ s a b d cn, 1 ≤ d → FrameAt (c.hash :: H) T D B s →
+        ∃ s', rec c s a b (ply + 1) d cn = some (-v, s') ∧ FrameAt (c.hash :: H) T D B s')
+    (st : SState) (alpha best : Int) (ha : alpha < v) (hbest : best < v) (hst : FrameAt H T D B st) :
     ∃ st', nmLoop rec p beta ply depth inCheck (m :: ms) 0 st alpha best none = some (st', v, v, some m) ∧
-      SState.FrameAt H T D B st' := by
+      FrameAt H T D B st' := by
   obtain ⟨c, hmk, hc⟩ := hrec m (List.mem_cons_self)
   obtain ⟨s', hs', hf'⟩ := hc { st with nodes := st.nodes + 1, hist := c.hash :: st.hist } (-beta) (-alpha)
     (depth - 1) true (by omega) ⟨by rw [hst.1], hst.2.1, hst.2.2.1, hst.2.2.2⟩
@@ -178,22 +182,23 @@ def DrawnChild (H : List BB) (T : Table TTEntry) (c : Position) : Prop :=
     (T.poll c.hash.toNat).map (·.hash) ≠ some c.hash
 
 /-- limits whose poll answers `false` for every state whose `depth` field is `d`. -/
-def Limit.quietAt (lim : Limit) (d : Int) : Prop :=
+def QuietAt (lim : Limit) (d : Int) : Prop :=
   match lim with
   | .depth D => d ≤ D
   | .infinite => True
   | _ => False
 
-theorem shouldStop_quiet {lim : Limit} {s : SState} (h : lim.quietAt s.depth) : (shouldStop lim s).1 = false := by
+theorem shouldStop_quiet {lim : Limit} {s : SState} (h : QuietAt lim s.depth) : (shouldStop lim s).1 = false := by
   cases lim with
-  | depth D => simpa [shouldStop, Limit.quietAt] using h
+  | depth D => simpa [shouldStop, QuietAt] using h
   | infinite => rfl
   | nodes n => exact h.elim
   | clock o => exact h.elim
 
+/-- (C11.3) the root call when every child is a `DrawnChild` and the depth after the check extension is ≥ 2. -/
 theorem root_all_children_drawn (lim : Limit) (fuel : Nat) (p : Position) (st : SState) (depth : Int)
     (hdepth : 2 ≤ (if p.inCheck then depth + 1 else depth))
-    (hlim : lim.quietAt st.depth)
+    (hlim : QuietAt lim st.depth)
     (hlen : (legalMoves p).length ≤ Gen.orderBufNegamax)
     (hne : legalMoves p ≠ [])
     (hch : ∀ m ∈ legalMoves p, ∃ c, p.makemove m true = some c ∧ DrawnChild st.hist st.tt c) :
@@ -214,7 +219,7 @@ theorem root_all_children_drawn (lim : Limit) (fuel : Nat) (p : Position) (st : 
     rw [← hpr]; split
     · rw [shouldStop_fst_seldepth]; exact shouldStop_quiet hlim
     · rfl
-  have hpr2 : SState.FrameAt st.hist st.tt st.depth st.best pr.2 := by
+  have hpr2 : FrameAt st.hist st.tt st.depth st.best pr.2 := by
     rw [← hpr]; split <;> exact ⟨rfl, rfl, rfl, rfl⟩
   clear hpr
   obtain ⟨stop, s1⟩ := pr
@@ -255,9 +260,9 @@ theorem root_all_children_drawn (lim : Limit) (fuel : Nat) (p : Position) (st : 
 move loop from `(-INF, -INF, none)`, and stored its own entry if a move was found. -/
 theorem root_call_unfold (lim : Limit) (fuel : Nat) (p : Position) (st : SState) (depth v : Int) (st' : SState)
     (hdepth : 1 ≤ (if p.inCheck then depth + 1 else depth))
-    (hlim : lim.quietAt st.depth)
+    (hlim : QuietAt lim st.depth)
     (h : negamax lim (fuel + 1) p st (-Gen.INF) Gen.INF 0 depth false = some (v, st')) :
-    ∃ s1 ttm moves s2 a2 best bm, SState.FrameAt st.hist st.tt st.depth st.best s1 ∧
+    ∃ s1 ttm moves s2 a2 best bm, FrameAt st.hist st.tt st.depth st.best s1 ∧
       sortNm p (legalMoves p) ttm = some moves ∧
       nmLoop (negamax lim fuel) p Gen.INF 0 (if p.inCheck then depth + 1 else depth) p.inCheck moves 0 s1
         (-Gen.INF) (-Gen.INF) none = some (s2, a2, best, bm) ∧
@@ -277,7 +282,7 @@ theorem root_call_unfold (lim : Limit) (fuel : Nat) (p : Position) (st : SState)
     rw [← hpr]; split
     · rw [shouldStop_fst_seldepth]; exact shouldStop_quiet hlim
     · rfl
-  have hpr2 : SState.FrameAt st.hist st.tt st.depth st.best pr.2 := by
+  have hpr2 : FrameAt st.hist st.tt st.depth st.best pr.2 := by
     rw [← hpr]; split <;> exact ⟨rfl, rfl, rfl, rfl⟩
   clear hpr
   obtain ⟨stop, s1⟩ := pr
@@ -331,14 +336,15 @@ theorem nmLoop_invariant
       (st' : SState) (a' b' : Int) (bm' : Option Mv),
       (∀ m ∈ ms, m ∈ all) → S st → R done alpha best bm →
       nmLoop rec p beta ply depth inCheck ms idx st alpha best bm = some (st', a', b', bm') →
-      ∃ done' rest, ms = done' ++ rest ∧ S st' ∧ R (done ++ done') a' b' bm' ∧ (rest = [] ∨ a' ≥ beta) := by
+      ∃ done' rest, ms = done' ++ rest ∧ S st' ∧ R (done ++ done') a' b' bm' ∧ (rest = [] ∨ a' ≥ beta) ∧
+        (ms ≠ [] → done' ≠ []) := by
   intro ms
   induction ms with
   | nil =>
     intro done idx st alpha best bm st' a' b' bm' _ hS hR h
     simp only [nmLoop, Option.some.injEq, Prod.mk.injEq] at h
     obtain ⟨rfl, rfl, rfl, rfl⟩ := h
-    exact ⟨[], [], rfl, hS, by rwa [List.append_nil], Or.inl rfl⟩
+    exact ⟨[], [], rfl, hS, by rwa [List.append_nil], Or.inl rfl, fun h => absurd rfl h⟩
   | cons m ms ih =>
     intro done idx st alpha best bm st' a' b' bm' hall hS hR h
     have hm : m ∈ all := hall m List.mem_cons_self
@@ -387,19 +393,19 @@ theorem nmLoop_invariant
       · rename_i hcut
         simp only [Option.some.injEq, Prod.mk.injEq] at h
         obtain ⟨rfl, rfl, rfl, rfl⟩ := h
-        exact ⟨[m], ms, rfl, hS1, hR1, Or.inr hcut⟩
-      · obtain ⟨done', rest, rfl, h1, h2, h3⟩ := ih (done ++ [m]) _ _ _ _ _ _ _ _ _
+        exact ⟨[m], ms, rfl, hS1, hR1, Or.inr hcut, fun _ => List.cons_ne_nil _ _⟩
+      · obtain ⟨done', rest, rfl, h1, h2, h3, _⟩ := ih (done ++ [m]) _ _ _ _ _ _ _ _ _
           (fun m' hm' => hall m' (List.mem_cons_of_mem _ hm')) hS1 hR1 h
-        exact ⟨m :: done', rest, rfl, h1, by simpa using h2, h3⟩
+        exact ⟨m :: done', rest, rfl, h1, by simpa using h2, h3, fun _ => List.cons_ne_nil _ _⟩
     · simp only [hsb, ↓reduceIte] at h hR1
       ite_split h
       · rename_i hcut
         simp only [Option.some.injEq, Prod.mk.injEq] at h
         obtain ⟨rfl, rfl, rfl, rfl⟩ := h
-        exact ⟨[m], ms, rfl, hS1, hR1, Or.inr hcut⟩
-      · obtain ⟨done', rest, rfl, h1, h2, h3⟩ := ih (done ++ [m]) _ _ _ _ _ _ _ _ _
+        exact ⟨[m], ms, rfl, hS1, hR1, Or.inr hcut, fun _ => List.cons_ne_nil _ _⟩
+      · obtain ⟨done', rest, rfl, h1, h2, h3, _⟩ := ih (done ++ [m]) _ _ _ _ _ _ _ _ _
           (fun m' hm' => hall m' (List.mem_cons_of_mem _ hm')) hS1 hR1 h
-        exact ⟨m :: done', rest, rfl, h1, by simpa using h2, h3⟩
+        exact ⟨m :: done', rest, rfl, h1, by simpa using h2, h3, fun _ => List.cons_ne_nil _ _⟩
 /-- the static evaluation is within `[-B, B]` on the capture tree below `p`, to depth `fuel`. -/
 def QEvalOk (B : Int) : Nat → Position → Prop
   | 0, _ => True
@@ -463,10 +469,10 @@ theorem qsearch_range (B : Int) : ∀ (fuel : Nat) (p : Position) (st : QState) 
 /-- a drawn child answers below `INF` (so that the root records its move), and touches nothing but counters. -/
 theorem drawn_child_frame (lim : Limit) (fuel : Nat) (c : Position) (s : SState) (a b ply d : Int) (cn : Bool)
     (Bd : Int) (H : List BB) (T : Table TTEntry) (D : Int) (B : Option Mv)
-    (hply : 1 ≤ ply) (hlim : lim.quietAt D) (hdr : DrawnChild H T c) (hq : QEvalOk Bd qFuel c)
-    (hs : SState.FrameAt (c.hash :: H) T D B s) (v : Int) (s' : SState)
+    (hply : 1 ≤ ply) (hlim : QuietAt lim D) (hdr : DrawnChild H T c) (hq : QEvalOk Bd qFuel c)
+    (hs : FrameAt (c.hash :: H) T D B s) (v : Int) (s' : SState)
     (h : negamax lim (fuel + 1) c s a b ply d cn = some (v, s')) :
-    SState.FrameAt (c.hash :: H) T D B s' ∧ (v = Gen.DRAW_SCORE ∨ (-Bd ≤ v ∧ v ≤ Bd)) := by
+    FrameAt (c.hash :: H) T D B s' ∧ (v = Gen.DRAW_SCORE ∨ (-Bd ≤ v ∧ v ≤ Bd)) := by
   rw [negamax_drawn_child_eq lim fuel c s a b ply d cn hply (by rw [hs.2.1]; exact hdr.2)
     (shouldStop_quiet (by rw [hs.2.2.1]; exact hlim)) (by rw [hs.1]; exact hdr.1)] at h
   ite_split h
@@ -486,7 +492,7 @@ depth 0, i.e. go to quiescence. -/
 theorem root_drawn_children_frame (lim : Limit) (fuel : Nat) (p : Position) (st : SState) (depth : Int) (Bd : Int)
     (hBd : Bd < Gen.INF)
     (hdepth : 1 ≤ (if p.inCheck then depth + 1 else depth))
-    (hlim : lim.quietAt st.depth)
+    (hlim : QuietAt lim st.depth)
     (hne : legalMoves p ≠ [])
     (hch : ∀ m ∈ legalMoves p, ∀ c, p.makemove m true = some c → DrawnChild st.hist st.tt c ∧ QEvalOk Bd qFuel c)
     (v : Int) (st' : SState)
@@ -496,9 +502,9 @@ theorem root_drawn_children_frame (lim : Limit) (fuel : Nat) (p : Position) (st 
   obtain ⟨s1, ttm, moves, s2, a2, best, bm, hs1, hsort, hloop, hfin⟩ :=
     root_call_unfold lim (fuel + 1) p st depth v st' hdepth hlim h
   have hperm := sortNm_perm p _ _ _ hsort
-  obtain ⟨done', rest, hsplit, hs2, hR, hend⟩ := nmLoop_invariant (negamax lim (fuel + 1)) p Gen.INF 0 _ p.inCheck
-    (SState.FrameAt st.hist st.tt st.depth st.best)
-    (fun c => SState.FrameAt (c.hash :: st.hist) st.tt st.depth st.best)
+  obtain ⟨done', rest, hsplit, hs2, hR, hend, _⟩ := nmLoop_invariant (negamax lim (fuel + 1)) p Gen.INF 0 _ p.inCheck
+    (FrameAt st.hist st.tt st.depth st.best)
+    (fun c => FrameAt (c.hash :: st.hist) st.tt st.depth st.best)
     (fun _ score => score > -Gen.INF)
     (fun done alpha best bm => (done = [] ∧ bm = none ∧ best = -Gen.INF ∧ alpha = -Gen.INF) ∨ ∃ m ∈ done, bm = some m)
     moves
@@ -539,7 +545,7 @@ theorem root_drawn_children_frame (lim : Limit) (fuel : Nat) (p : Position) (st 
 
 /-! ## the table, the stop after the last iteration, the iterations of the driver -/
 
-theorem Table.poll_add_cases {α : Type} [Inhabited α] [DecidableEq α] {t t' : Table α} {key : Nat} {e : α}
+theorem poll_add_cases {α : Type} [Inhabited α] [DecidableEq α] {t t' : Table α} {key : Nat} {e : α}
     (h : t.add key e = some t') (k : Nat) : t'.poll k = some e ∨ t'.poll k = t.poll k := by
   rw [Table.poll_eq, Table.poll_eq, Table.len_add h, Table.slot_add h]
   split
@@ -555,7 +561,7 @@ theorem NoChildHit.add {p : Position} {T T' : Table TTEntry} {e : TTEntry} (h : 
     (hk : ∀ m ∈ legalMoves p, ∀ c, p.makemove m true = some c → c.hash ≠ e.hash)
     (hadd : T.add p.hash.toNat e = some T') : NoChildHit p T' := by
   intro m hm c hmk
-  rcases Table.poll_add_cases hadd c.hash.toNat with h1 | h1
+  rcases poll_add_cases hadd c.hash.toNat with h1 | h1
   · rw [h1]
     simp only [Option.map_some, ne_eq, Option.some.injEq]
     exact fun h' => hk m hm c hmk h'.symm
@@ -688,4 +694,4 @@ theorem qEvalOkB_iff (B : Int) (f : Nat) (p : Position) : qEvalOkB B f p = true 
       simp only [Option.some.injEq]
       exact ⟨fun h np' e => e ▸ (ih np).mp h, fun h => (ih np).mpr (h np rfl)⟩
 
-end Rawr
+end Rawr.DM
